@@ -25,6 +25,8 @@ import corr_C06 as G
 
 INF = float("inf")
 INV_TOL = 1e-5
+KEY_INT_PARAMS = "C07-integer-typed-parameters-intermediate-not-representable"
+FAR_RATIOS = (1e4, 1e5, 1e6, 1e7)   # |a| / (b-a+12o); see far_member for why the axis stops at 1e7
 
 
 def gen_qs(rng, n):
@@ -54,17 +56,23 @@ def inp_of(a, b, c, o, cv, q=None):
     return d
 
 
-def inverse_ok(rep, d, a, b, c, o, cv, q, y, worst, why, container=None):
-    """the Spec clause |cdf(ppf(q)) - q| <= 1e-5 with the code's own cdf; returns True if it holds"""
+def inverse_ok(rep, d, a, b, c, o, cv, q, y, worst, why, container=None, dref=None, extra=None, fkey=None):
+    """the Spec clause |cdf(ppf(q)) - q| <= 1e-5 with the code's own cdf; returns True if it holds.  `dref`: the instance of the same
+    distribution built from float parameters - when `d` was built from integer-typed parameters the clause is evaluated with the
+    cdf of both (a defect of integer-typed parameters common to cdf and ppf cannot cancel then)"""
     with np.errstate(all="ignore"):
         f = float(d.cdf(y))
-    err = abs(f - q)
-    worst["inverse"] = max(worst["inverse"], err)
+        fr = float(dref.cdf(y)) if dref is not None else f
+    err, err_r = abs(f - q), abs(fr - q)
+    worst["inverse"] = max(worst["inverse"], err if fkey is None else 0.0, err_r if fkey is None else 0.0)
     rep.count(f"inverse_checks[{why}]")
-    if not (err <= INV_TOL):
-        rep.violate(what=f"|cdf(ppf(q)) - q| = {err:.3g} > 1e-5" + (f" [levels given as {container}]" if container else ""),
-                    input=dict(inp_of(a, b, c, o, cv, q), **({"q_container": container} if container else {})),
-                    observed=dict(ppf=float(y), cdf_of_ppf=f), expected=q, call="NoisyQuadraticDistribution.ppf", found_by=why)
+    if not (err <= INV_TOL and err_r <= INV_TOL):
+        which = "" if dref is None else (" (cdf of the instance itself)" if not err <= INV_TOL else " (cdf of the same distribution built from float parameters)")
+        rep.violate(what=f"|cdf(ppf(q)) - q| = {max(err, err_r):.3g} > 1e-5" + which + (f" [levels given as {container}]" if container else "")
+                         + (f" [parameters given as {extra['constructor']}]" if extra and extra.get("constructor") else ""),
+                    input=dict(inp_of(a, b, c, o, cv, q), **({"q_container": container} if container else {}), **(extra or {})),
+                    observed=dict(ppf=float(y), cdf_of_ppf=f, **({"cdf_of_ppf_float_parameters": fr} if dref is not None else {})), expected=q,
+                    call="NoisyQuadraticDistribution.ppf", found_by=why, finding_key=fkey)
         return False
     return True
 
@@ -136,63 +144,85 @@ def container_levels(rep, d, a, b, c, o, cv, inner, worst, why):
     return False
 
 
-def clauses_at(rep, NQ, a, b, c, o, cv, qs, worst, why):
+def clauses_at(rep, NQ, a, b, c, o, cv, qs, worst, why, labels=None):
     """evaluate every clause of the property on the implementation at one parameter setting; report the first
-    failing one as a violation and return True if one was found"""
+    failing one as a violation and return True if one was found.  `labels` (for integral a, b, o): the containers the three
+    parameters are handed to the constructor in (G.as_number); the clauses are those of the distribution with these numbers as
+    parameters, the inverse clause is evaluated with the cdf of the instance itself and of the float-parameter instance"""
     reg = G.regime_of(a, b, o)
+    extra, fkey, dref = {}, None, None
+    if labels is not None:
+        hz = G.param_hazard(a, b, o, labels, relevant=G.hazards_for(reg, "ppf"))
+        fkey = KEY_INT_PARAMS if hz else None
+        extra = dict(param_container="/".join(labels), constructor=G.param_call(a, b, c, o, cv, labels), **({"dtype_hazard": hz} if hz else {}))
+        if hz:
+            rep.count("param_container:an_intermediate_is_not_representable_in_the_parameters_dtype")
+            if worst.setdefault("keyed", 0) >= 3:
+                return False        # the recorded dtype finding is reported three times per run at most
+
+    def viol(**kw):
+        if fkey:
+            worst["keyed"] = worst.get("keyed", 0) + 1
+        kw["input"] = dict(kw.get("input") or {}, **extra)
+        if extra:
+            kw["what"] += f" [parameters given as {extra['constructor']}]"
+        rep.violate(found_by=why, finding_key=fkey, **kw)
+        return True
+
     try:
-        d = NQ(a, b, c, o, cv)
+        if labels is not None:
+            d = NQ(G.as_number(a, labels[0]), G.as_number(b, labels[1]), c, G.as_number(o, labels[2]), cv)
+            dref = NQ(a, b, c, o, cv)
+        else:
+            d = NQ(a, b, c, o, cv)
         g = np.array(sorted(set(float(q) for q in qs) | {0.0, 1.0}))
         with np.errstate(all="ignore"):
             v = np.asarray(d.ppf(g), dtype=float)
     except Exception as e:
-        rep.violate(what="ppf raised on q in [0, 1]", error=repr(e), input=inp_of(a, b, c, o, cv),
-                    call="NoisyQuadraticDistribution.ppf", found_by=why)
-        return True
+        return viol(what="ppf raised on q in [0, 1]", error=repr(e), input=inp_of(a, b, c, o, cv), call="NoisyQuadraticDistribution.ppf")
     if v.shape != g.shape:
-        rep.violate(what="ppf output shape differs from input shape", input=inp_of(a, b, c, o, cv),
-                    call="NoisyQuadraticDistribution.ppf", found_by=why)
-        return True
+        return viol(what="ppf output shape differs from input shape", input=inp_of(a, b, c, o, cv), call="NoisyQuadraticDistribution.ppf")
     if reg == "point":
         if not np.all(v == a):
-            rep.violate(what="point mass: ppf(q) is not a", input=inp_of(a, b, c, o, cv), call="NoisyQuadraticDistribution.ppf",
-                        found_by=why)
-            return True
+            return viol(what="point mass: ppf(q) is not a", input=inp_of(a, b, c, o, cv), call="NoisyQuadraticDistribution.ppf")
         return False
     lo_want, hi_want = (-INF, INF) if reg in ("nothing", "normal") else (a, b)
     for q, y, want in ((0.0, v[0], lo_want), (1.0, v[-1], hi_want)):
         ok = (y == want) if abs(want) == INF else abs(y - want) <= 4 * max(ulp(a), ulp(b))
         if not ok:
-            rep.violate(what="ppf(0)/ppf(1) is not -inf/+inf (noise modelled) resp. a/b (noise ignored)",
-                        input=inp_of(a, b, c, o, cv, q), observed=float(y), expected=repr(want),
-                        call="NoisyQuadraticDistribution.ppf", found_by=why)
-            return True
+            return viol(what="ppf(0)/ppf(1) is not -inf/+inf (noise modelled) resp. a/b (noise ignored)",
+                        input=inp_of(a, b, c, o, cv, q), observed=float(y), expected=repr(want), call="NoisyQuadraticDistribution.ppf")
     for i in range(len(g) - 1):
         if not (v[i] <= v[i + 1]):
-            rep.violate(what="ppf is not non-decreasing in q", input=dict(inp_of(a, b, c, o, cv), q_lo=C.fhex(g[i]), q_hi=C.fhex(g[i + 1])),
-                        observed=[float(v[i]), float(v[i + 1])], call="NoisyQuadraticDistribution.ppf", found_by=why)
-            return True
+            return viol(what="ppf is not non-decreasing in q", input=dict(inp_of(a, b, c, o, cv), q_lo=C.fhex(g[i]), q_hi=C.fhex(g[i + 1])),
+                        observed=[float(v[i]), float(v[i + 1])], call="NoisyQuadraticDistribution.ppf")
     for q, y in zip(g, v):
         if 0.0 < q < 1.0:
             if y != y:
-                rep.violate(what="ppf(q) is nan", input=inp_of(a, b, c, o, cv, q), call="NoisyQuadraticDistribution.ppf", found_by=why)
-                return True
-            if not inverse_ok(rep, d, a, b, c, o, cv, float(q), float(y), worst, why):
+                return viol(what="ppf(q) is nan", input=inp_of(a, b, c, o, cv, q), call="NoisyQuadraticDistribution.ppf")
+            if not inverse_ok(rep, d, a, b, c, o, cv, float(q), float(y), worst, why, dref=dref, extra=extra, fkey=fkey):
+                worst["keyed"] = worst.get("keyed", 0) + (1 if fkey else 0)
                 return True
     # scalar queries take the same code path with a one-element mask: evaluate a few of them as well
     inner = [float(q) for q in g if 0.0 < q < 1.0]
     for q in inner[:: max(1, len(inner) // 5)][:5]:
         with np.errstate(all="ignore"):
-            y = float(d.ppf(q))
-        if y != y or not inverse_ok(rep, d, a, b, c, o, cv, q, y, worst, why):
+            ys_ = d.ppf(q)
+        if np.shape(ys_) != ():
+            return viol(what="ppf of a scalar level is not a scalar", input=inp_of(a, b, c, o, cv, q), call="NoisyQuadraticDistribution.ppf")
+        y = float(ys_)
+        if y != y or not inverse_ok(rep, d, a, b, c, o, cv, q, y, worst, why, dref=dref, extra=extra, fkey=fkey):
+            worst["keyed"] = worst.get("keyed", 0) + (1 if fkey else 0)
             return True
-    if container_levels(rep, d, a, b, c, o, cv, inner, worst, why):
+    if labels is None and container_levels(rep, d, a, b, c, o, cv, inner, worst, why):
         return True
     return False
 
 
 def image_search(rep, NQ, a, b, c, o, cv, qs, worst):
-    """location-scale images of a disagreeing instance: same c, s, shape, q; other widths and locations"""
+    """location-scale images of a disagreeing instance: same c, s, shape, q; other widths and locations - near the origin
+    (a in {0, +-1e3 (b-a)}) and far from it (|a| = 1e4 .. 1e7 times b-a+12o, both signs: a stopping rule or a tolerance that is
+    relative to |y| instead of to the width shows there)"""
     if not b > a:
         return False
     s = o / (b - a)
@@ -202,7 +232,66 @@ def image_search(rep, NQ, a, b, c, o, cv, qs, worst):
             rep.count("location_scale_images_searched")
             if clauses_at(rep, NQ, a2, a2 + w, c, s * w, cv, qs, worst, "location-scale image of a disagreement"):
                 return True
+    for w in (1.0,) + IMAGE_WIDTHS:
+        for r in FAR_RATIOS:
+            for sg in (1.0, -1.0):
+                a2 = sg * r * w * (1 + 12 * s)
+                if G.regime_of(a2, a2 + w, s * w) != G.regime_of(a, b, o):
+                    continue
+                rep.count("far_location_images_searched")
+                if clauses_at(rep, NQ, a2, a2 + w, c, s * w, cv, qs, worst, "far-location image of a disagreement"):
+                    return True
     return False
+
+
+FAR_FIXED = [(1, 4e-3, 0.5, True), (1, 4e-3, 0.5, False), (2, 0.1, 1.0, False), (3, 0.3, 1e3, True), (5, 1e-2, 1e-3, False), (10, 2.0, 30.0, True),
+             (1, 1e-5, 1.0, False), (4, 1e-4, 1e-2, True)]
+
+
+def far_member(rng, switches, i):
+    """"for every parameter setting" includes every location: members whose support lies 1e4, 1e5, 1e6, 1e7 times its own width
+    (b-a+12o, the range the quantile is searched on) away from the origin, on either side, widths 1e-3 .. 1e3, every regime.
+    The axis stops at 1e7: there the final bracket of the 30-step bisection, (b-a+12o)/2^30 = 9.3e-10 widths, is already below the
+    spacing of the doubles at |a| (2.2e-16 * 1e7 = 2.2e-9 widths), i.e. no inversion can be sharper than the grid; the unchanged
+    code meets the 1e-5 clause there with a margin of more than 2 (worst observed 4.7e-6 over 6000 members at 1e7 and 3e7,
+    6.3e-6 at 1e8), beyond that the grid itself eats the tolerance for the tall densities (c = 1, o -> 1e-6 (b-a))."""
+    if i < 2 * len(FAR_FIXED):
+        # deterministic members (tall and flat densities in the bisecting regime), every ratio on both sides in every run
+        c, s, w, cv = FAR_FIXED[i % len(FAR_FIXED)]
+        ratio = FAR_RATIOS[(i + i // len(FAR_FIXED)) % len(FAR_RATIOS)]
+        sg = 1.0 if (i // 4) % 2 == 0 else -1.0
+        tag = "far_fixed"
+    else:
+        a, b, c, o, cv, tag = G.gen_dist(rng, switches)
+        w = rng.choice([1e-3, 1.0, 1e3, 10 ** rng.uniform(-3, 3), 10 ** rng.uniform(-3, 3)])
+        ratio = rng.choice(list(FAR_RATIOS) + [10 ** rng.uniform(3.5, 7)])
+        sg = rng.choice([1.0, -1.0])
+        if not b > a:            # a = b: the normal law N(a, o^2) (range 12 o) or the point mass
+            a2 = sg * ratio * (12 * w if o > 0 else w)
+            return a2, a2, c, (w if o > 0 else 0.0), cv, tag + "|far", ratio
+        s = o / (b - a)
+    a2 = sg * ratio * w * (1 + 12 * s)
+    return a2, a2 + w, c, s * w, cv, tag + "|far", ratio
+
+
+def param_container_part(rep, NQ, rng, n, worst, forced=None):
+    """the PARAMETER-container axis: the constructor keeps integral parameters as numpy integers, and numpy takes the dtype of the
+    bracket a-6o, b+6o and of every other intermediate from them.  The distribution with parameters (0, 1, 2, 1) is the distribution
+    with parameters (0., 1., 2, 1.): every clause is evaluated on the instance built from Python ints / numpy integer scalars of
+    several widths / some integer-typed and some float parameters."""
+    for i in range(n):
+        if forced is not None:
+            a, b, c, o, cv, qs, label_sets = forced
+        else:
+            a, b, c, o, cv = G.gen_int_params(rng, G.PC_KINDS[i % len(G.PC_KINDS)])
+            qs = gen_qs(rng, 10) + np.linspace(0.02, 0.98, 13).tolist()
+            label_sets = G.param_label_sets(rng, a, b, o)
+        reg = G.regime_of(a, b, o)
+        rep.count("param_container:regime=" + reg)
+        for labels in label_sets:
+            rep.count("param_container=" + ("all " + labels[0] if len(set(labels)) == 1 else "mixed"))
+            rep.case(("param_container", labels, a, b, c, o, cv), nontrivial=reg != "point")
+            clauses_at(rep, NQ, a, b, c, o, cv, qs, worst, "param_container", labels=labels)
 
 
 def tall_density_search(rep, NQ, worst):
@@ -232,20 +321,33 @@ def run(seed, tier, replay=None):
     n_dists = 300 if not thorough else 3000
     n_qs = 10
     n_mono = 80 if not thorough else 500
+    n_far = 48 if not thorough else 480
+    n_pc = 30 if not thorough else 300
     worst = dict(inverse=0.0, rel_diff=0.0)
 
     dists = []
+    forced_pc = None
     if replay is not None:
         inp = (replay.get("violation") or replay).get("input") or {}
         try:
             a, b, o = C.unhex(inp["a"]), C.unhex(inp["b"]), C.unhex(inp["o"])
             dists.append((a, b, int(inp["c"]), o, bool(inp["convex"]), "replay", [C.unhex(inp["q"])] if "q" in inp else None))
-            n_dists = n_mono = 0
+            n_dists = n_mono = n_far = 0
+            if inp.get("param_container"):
+                forced_pc = (a, b, int(inp["c"]), o, bool(inp["convex"]), ([C.unhex(inp["q"])] if "q" in inp else []) + np.linspace(0.02, 0.98, 13).tolist(),
+                             [tuple(inp["param_container"].split("/"))])
         except Exception:
             rep.notes.append("replay file carries no C07 input; running the seeded check")
     for _ in range(n_dists):
         a, b, c, o, cv, tag = gen_dist_scaled(rng, switches)
         dists.append((a, b, c, o, cv, tag, None))
+    # far locations (a stream of their own, appended after the members above so that those are the same as before for a given seed)
+    n_regular = len(dists)
+    rng_f = C.rng_for("C07.far-locations", seed)
+    for i in range(n_far):
+        a, b, c, o, cv, tag, ratio = far_member(rng_f, switches, i)
+        dists.append((a, b, c, o, cv, tag, gen_qs(rng_f, n_qs)))
+        rep.count("location_ratio=1e%d" % round(math.log10(ratio)))
 
     reqs = []
     for di, (a, b, c, o, cv, tag, qs) in enumerate(dists):
@@ -254,7 +356,7 @@ def run(seed, tier, replay=None):
         dists[di] = (a, b, c, o, cv, tag, qs)
         reqs.append(("noisy.ppf", f"{G.params_line(a, b, c, o, cv)} {C.flist(qs)}"))
         rep.count("regime=" + G.regime_of(a, b, o))
-        rep.count("s:" + tag.split("|")[0])
+        rep.count("s:" + tag.split("|")[0] + ("|far" if tag.endswith("|far") else ""))
         rep.count("width=1e%d" % (round(math.log10(b - a)) if b > a else 0) if b > a else "width=0")
     replies = drv.run(reqs)
     images_left = 6          # disagreeing distributions whose location-scale images are searched
@@ -359,10 +461,14 @@ def run(seed, tier, replay=None):
                              first_tie_step=mk, note="model and implementation differ by more than 1e-8 (b-a+12o) with no "
                              "near-tie to explain it; the implementation still inverts its own cdf to 1e-5 there")
 
+    # ---- the parameters in other containers
+    if replay is None or forced_pc is not None:
+        param_container_part(rep, NQ, C.rng_for("C07.parameter-containers", seed), 1 if forced_pc else n_pc, worst, forced_pc)
+
     # ---- monotonicity on sorted grids (implementation only)
-    md = list(dists)
+    md = list(dists[:n_regular])
     rng.shuffle(md)
-    for (a, b, c, o, cv, tag, _qs) in md[:n_mono]:
+    for (a, b, c, o, cv, tag, _qs) in md[:n_mono] + dists[n_regular:][::3]:
         grid = {0.0, 1.0, 5e-324, 1e-300, 1e-12, 1 - 1e-12, 1 - 2.0 ** -53}
         grid.update(np.linspace(0, 1, 101).tolist())
         grid.update(rng.random() for _ in range(60))
@@ -384,7 +490,16 @@ def run(seed, tier, replay=None):
 
     return rep.result(
         rule="a case is (distribution, q). Distributions as in C06 (all regimes, both sides of every switch point, o=0, a=b), half of "
-             "them moved within the location-scale family to b-a log-uniform on [1e-7, 1e3] with |a| <= 1e3 (b-a); "
+             "them moved within the location-scale family to b-a log-uniform on [1e-7, 1e3] with |a| <= 1e3 (b-a); far locations: 16 fixed members "
+             "(c in {1,2,3,4,5,10}, tall and flat densities) and random members of every regime at |a| = 1e4, 1e5, 1e6, 1e7 (and 10^U(3.5,7)) times "
+             "b-a+12o on both sides of the origin, b-a in [1e-3, 1e3] - the axis stops at 1e7 widths, where the spacing of the doubles at |a| "
+             "(2.2e-9 widths) exceeds the final bracket of the bisection (9.3e-10 widths) and the unchanged code still meets 1e-5 with a margin "
+             "of 2; the same ratios are images in the failing-input search after a disagreement. Parameter containers: integral a, b, o "
+             "(supports (0,1) .. (0,1000), o = 0, o >= 1 in the series regime, o >= 10 (b-a), b-a > 1e6 with o = 1, a = b) handed to the "
+             "constructor as Python ints, np.int64, two further integer widths that hold them, and mixed integer/float settings; every clause, "
+             "the inverse clause with the cdf of the instance itself and of the float-parameter instance of the same distribution; where an "
+             "intermediate (6o, a-6o, b+6o, o^2, 4(b-a)^2, ...) is not representable in the parameters' integer dtype the violation is the "
+             "recorded finding " + KEY_INT_PARAMS + ". "
              "q: 0, 1, 1e-12, 1-1e-12, 0.5, uniform, U^4, 1-U^4, {5e-324,1e-300,1e-15,...,1-2^-53}; scalar, 1-D, 2-D and empty "
              "queries; monotonicity on sorted 250-point grids incl. 21 points 1e-9 apart. distinct = distinct by hash of the case.",
         extra=dict(driver_lines=drv.lines,
